@@ -8,6 +8,10 @@ type ctxData struct{}
 
 func registerExtra(e *Engine) {
 	registerLogging(e)
+	registerSDK(e)
+	registerAddr(e)
+	registerHashObjects(e)
+	registerAtomic(e)
 }
 
 // loggerValue returns the universal no-op logger object (*liblog.lgwr).
